@@ -442,6 +442,33 @@ pub fn hand_codecs(em: &mut Emitter, rng: &mut Rng, tag: &str) {
             hand_roundtrip_only(em, tag, "bbs::SecretKey", &bsk, |x| x.to_bytes(), |b| bbs::SecretKey::from_bytes(b));
         }
     }
+    // PS keys whose blinding generators were stripped / shortened (verification-only copies made by editing the JSON form)
+    for n in [2usize, 4] {
+        if let Ok((ppk, _)) = ps::PsScheme::new_keys(NonZeroUsize::new(n).unwrap(), rng.chacha()) {
+            let kv = serde_json::to_value(&ppk).unwrap_or_default();
+            for keep in [0usize, 1, n - 1] {
+                for field in ["y_blinds", "y"] {
+                    let mut v2 = kv.clone();
+                    if let Some(a) = v2[field].as_array_mut() {
+                        a.truncate(keep);
+                    }
+                    if let Ok(k2) = serde_json::from_str::<ps::PublicKey>(&v2.to_string()) {
+                        em.oracle_case(&format!("ps::PublicKey uneven {} {} {}", n, field, keep));
+                        let a = k2.to_bytes();
+                        match call_opt(|| ps::PublicKey::from_bytes(&a)) {
+                            Out::Ok(k3) => {
+                                if k3.to_bytes() != a || k3.y.len() != k2.y.len() || k3.y_blinds.len() != k2.y_blinds.len() {
+                                    em.violation(&format!("{}:hand-codec-differs:ps::PublicKey", tag), format!("ps::PublicKey with {} y and {} y_blinds: from_bytes(to_bytes(k)) is another key", k2.y.len(), k2.y_blinds.len()), json!({"y": k2.y.len(), "y_blinds": k2.y_blinds.len()}));
+                                }
+                            }
+                            Out::Err => em.violation(&format!("{}:hand-codec-roundtrip:ps::PublicKey", tag), format!("ps::PublicKey with {} y and {} y_blinds: from_bytes rejects the output of to_bytes", k2.y.len(), k2.y_blinds.len()), json!({"y": k2.y.len(), "y_blinds": k2.y_blinds.len()})),
+                            Out::Panic(m) => em.violation(&format!("{}:hand-codec-panic:ps::PublicKey", tag), format!("ps::PublicKey: from_bytes panicked on the output of to_bytes: {}", m), json!({})),
+                        }
+                    }
+                }
+            }
+        }
+    }
     for n in 1..=em.n(4, 8) {
         // PS
         let (ppk, psk) = ps::PsScheme::new_keys(NonZeroUsize::new(n).unwrap(), rng.chacha()).unwrap();
